@@ -1,4 +1,4 @@
-\* after the probing (later file of a transfer): split path, ignore count; capacities 1
+\* after the probing (a later file of a transfer): queued chunks above a shrunk size go out in pieces; capacities 1
 SPECIFICATION Spec
 CONSTANTS
   Floor = 1024
@@ -11,12 +11,12 @@ CONSTANTS
   MaxBufs = {40960}
   Modes = {"bin"}
   Protos = {4}
-  Secs = {2, 20}
-  MaxChunks = 3
+  Secs = {2}
+  MaxChunks = 2
   P1MaxChunks = 1
   MaxFiles = 1
-  MaxPauses = 1
-  StartSizes = {1024, 10240, 40960}
+  MaxPauses = 0
+  StartSizes = {40960}
   Variant = "coded"
 INVARIANTS TypeOK SizeInRange ChunksInRange NeverRejectedByReceiver NothingQueuedIsRejected ProbeEndsOnce
   TokenPaired EncoderNotStuck OneChunkWhileProbing DoubleOnlyWhenAllowed ShrinkOnlyWhenSlow
